@@ -1,7 +1,7 @@
 (* case driver for C01 / C02: classify a generated pipeline + tables with Model/SemStrict.v inside Coq.
    For every case the driver returns a list of numbers:
-     1..11      the causes met by the strict walk along the Pandas conventions or along the SQLite conventions (cause_code)
-     21..31     20 + the causes met by the multiset walk (causes_bag)
+     1..10      the causes met by the strict walk along the Pandas conventions or along the SQLite conventions (cause_code)
+     21..30     20 + the causes met by the multiset walk (causes_bag)
      100        the models of Pandas and SQLite return different multisets of rows (or different columns)
      101        (only for cases compared in row order) the two models return the rows in a different order
      102        the models of Pandas and PostgreSQL return different multisets of rows
